@@ -6,16 +6,28 @@ SPEC = dict(
              "SimbodyProofs/C33_lemmas.lean", "SimbodyProofs/C17_lemmas.lean", "SimbodyProofs/C17.lean", "Drivers/C17.lean"],
     n=dict(quick=600, thorough=20000),
     rtol=0.0, atol=0.0,
-    modes=["", "f7"],
+    modes=["", "f7", "f7p", "ta"],
     rule="GeneralForceSubsystem with 1..10 Force::Custom elements (random shouldBeParallelIfPossible / "
-         "dependsOnlyOnPositions / enabled flags, integer-valued increments to mobility and body force slots so totals are "
-         "exact), 1..4 bodies, thread counts 1..16, 3..6 realizations per system with position- or velocity-only "
-         "invalidation in between (modes All / CachedAndNonCached / NonCached); one record per realization; mode 'f7' is "
-         "the dedicated lost-update stream (slow non-parallel force + 6 parallel forces + a position-only force, 8 threads, "
-         "30 realizations per caching mode); distinct = distinct input records",
-    partial="real thread interleavings and the C++ memory model are runtime: the theorems cover every interleaving of the "
-            "modelled atomic steps (each += on a shared array is a load and a store); 'same up to floating-point summation "
-            "order' is proved as equality in an arbitrary commutative monoid and tested with integer-valued forces (exact); "
-            "the ParallelExecutor protocol itself is C33",
+         "dependsOnlyOnPositions / disabled-by-default flags, integer-valued increments to mobility and body force slots, "
+         "optionally scaled by integer codes read from q[0] / u[0], ~10% deliberately slow forces), 1..4 bodies, thread "
+         "counts 1..16 set before realizeTopology, after it, or changed between realizations, 3..6 realizations per system "
+         "with enable/disable toggles in the State and position- or velocity-only changes in between (caching paths All / "
+         "CachedAndNonCached / NonCached); one record per realization, compared with an independent serial sum over the "
+         "enabled forces; streams: 'f7' (slow non-parallel force + 6 parallel + position-only, 8 threads), 'f7p' (slow "
+         "parallel and slow parallel position-only forces on the same slots), 'ta' (setNumberOfThreads after "
+         "realizeTopology, with and without parallel forces); seeded yields inside every calcForce; distinct = distinct "
+         "input records",
+    partial="PROVED about the executed model (the transition system the driver runs): race freedom of every schedule and "
+            "total = serial sum over the enabled forces for every thread count, caching path, enabled mask and schedule, in "
+            "subsystem states satisfying ThreadSafe (always true right after realizeTopology). NOT inside the model: the "
+            "non-parallel task on >= 2 workers (setNumberOfThreads after realizeTopology without parallel forces) — there the "
+            "model only proves the state is reachable and exhibits wrong totals in a 3-step mini-model; the implementation "
+            "is judged by the P line alone (key CalcForces.threads_after_topology.nonparallel_task). PREDICATE-ONLY: which "
+            "caching path the implementation really took is not observed (the harness steers it; q/u-dependent integer forces "
+            "make a stale cache or a skipped evaluation visible in the total); absence of races on the real machine rests on "
+            "slow-force streams with seeded yields, i.e. on OS interleavings. NOT BUILT (DESIGN promised them): hook traces "
+            "validated as runs of the transition system, a forced witness schedule, ThreadSanitizer replays. NOT COVERED: "
+            "accelerations derived from the totals, particle forces, several force subsystems / non-zero initial arrays; real "
+            "schedules and the C++ memory model are runtime; the ParallelExecutor protocol itself is C33",
     assumptions=["ParallelExecutor runs initialize / the task indices of a worker / finish (finish under its mutex) as proved in C33"],
 )
